@@ -18,6 +18,16 @@
 //              system ids, unknown URL protocols), every name unique to the thread: each message must carry its own
 //              bit11 every category / block escape known to RangeTokenMap, \s \d \w \i \c and complements, with and without
 //              option i, compiled / matched / destroyed in a tight loop
+//              bit13 (flag) the shared pool is OBTAINED BY DESERIALISATION (loadGrammar -> serializeGrammars ->
+//              deserializeGrammars into a fresh pool -> lockPool); bit16 (flag) serialise it from a LOCKED pool
+//              bit14 parsers sharing the locked pool validate documents of the "rich" schema (every content-type kind,
+//              wildcards, all-group, substitution group, identity constraints) and of a DTD grammar cached in the pool;
+//              no new namespace URIs, so the pool must not allocate at all (POOLMEM lines, strict=1)
+//              bit15 every public operation that can be directed at a locked shared pool, in a loop: resetCachedGrammarPool
+//              on a sharing parser, clear, cacheGrammar, orphanGrammar, getXSModel (stable, non-null), retrieveGrammar,
+//              create*Description
+//              bit17 \P{X} for the categories whose complement Initialize does not pre-build, requested in a different
+//              order by every thread, then \p{X} / \P{X} again; RANGEMAP line = audit of both slots afterwards
 //   xh_C17-tsan audit    (single-threaded) lists every RangeToken reachable from RangeTokenMap right after Initialize with
 //              its build state: shared state that Initialize should have built but is built lazily is the racy class
 //
@@ -56,6 +66,13 @@
 #include <xercesc/util/RefHashTableOf.hpp>
 #include <xercesc/framework/LocalFileInputSource.hpp>
 #include <xercesc/framework/XMLGrammarDescription.hpp>
+#include <xercesc/internal/BinMemOutputStream.hpp>
+#include <xercesc/util/BinMemInputStream.hpp>
+#include <xercesc/framework/MemoryManager.hpp>
+#include <xercesc/framework/psvi/XSModel.hpp>
+#include <xercesc/framework/XMLDTDDescription.hpp>
+#include <xercesc/framework/XMLSchemaDescription.hpp>
+#include <xercesc/validators/DTD/DTDGrammar.hpp>
 #include <xercesc/util/TransService.hpp>
 #include <xercesc/util/XMLUniDefs.hpp>
 #include <xercesc/util/XMLMutexMgr.hpp>
@@ -401,6 +418,17 @@ struct Shared {                       // fixed before the threads start
     std::vector<std::string> rangeKeys;   // every keyword of RangeTokenMap (read-only once the threads run)
     std::vector<int> keyFlags;            // bit0: complement token exists after Initialize, bit1: the positive token carries
                                           // a pre-set case-insensitive twin (safe with option i)
+    XSModel* xsModel = 0;                 // what pool->getXSModel() returned right after lockPool
+    std::vector<std::string> lazyCompl;   // keywords whose complement token does not exist after Initialize
+};
+
+// the pool's own memory manager: counts blocks, so that "a locked pool does not allocate" can be observed
+class CountingMemMgr : public MemoryManager {
+public:
+    std::atomic<long> allocs{0}, frees{0};
+    MemoryManager* getExceptionMemoryManager() override { return XMLPlatformUtils::fgMemoryManager; }
+    void* allocate(XMLSize_t size) override { allocs++; void* p = ::operator new(size ? size : 1); return p; }
+    void deallocate(void* p) override { if (p) { frees++; ::operator delete(p); } }
 };
 
 static void wrapExceptions(Digest& d, const std::function<void()>& f) {
@@ -804,6 +832,258 @@ static std::vector<TokInfo> auditTokens() {
     return out;
 }
 
+
+// ------------------------------------------------------------------------------------------------------------------
+// the "rich" schema: every content-type kind, wildcards, an all-group, a substitution group, identity constraints
+// ------------------------------------------------------------------------------------------------------------------
+static const char* kXSDRich =
+    "<?xml version=\"1.0\"?>\n"
+    "<xs:schema xmlns:xs=\"http://www.w3.org/2001/XMLSchema\" targetNamespace=\"urn:c17rich\" xmlns:r=\"urn:c17rich\" "
+    "elementFormDefault=\"qualified\">\n"
+    " <xs:element name=\"doc\"><xs:complexType><xs:sequence>\n"
+    "  <xs:element name=\"children\" type=\"r:childrenT\" minOccurs=\"0\" maxOccurs=\"unbounded\"/>\n"
+    "  <xs:element name=\"mixedc\" type=\"r:mixedComplexT\" minOccurs=\"0\" maxOccurs=\"unbounded\"/>\n"
+    "  <xs:element name=\"mixeds\" type=\"r:mixedSimpleT\" minOccurs=\"0\" maxOccurs=\"unbounded\"/>\n"
+    "  <xs:element name=\"eoe\" type=\"r:elemOnlyEmptyT\" minOccurs=\"0\" maxOccurs=\"unbounded\"/>\n"
+    "  <xs:element name=\"simple\" type=\"r:simpleContentT\" minOccurs=\"0\" maxOccurs=\"unbounded\"/>\n"
+    "  <xs:element name=\"empty\" type=\"r:emptyT\" minOccurs=\"0\" maxOccurs=\"unbounded\"/>\n"
+    "  <xs:element name=\"anyw\" type=\"r:anyT\" minOccurs=\"0\" maxOccurs=\"unbounded\"/>\n"
+    "  <xs:element name=\"allg\" type=\"r:allT\" minOccurs=\"0\" maxOccurs=\"unbounded\"/>\n"
+    "  <xs:element ref=\"r:head\" minOccurs=\"0\" maxOccurs=\"unbounded\"/>\n"
+    "  <xs:element name=\"ur\" minOccurs=\"0\"/>\n"
+    " </xs:sequence></xs:complexType>\n"
+    "  <xs:key name=\"k\"><xs:selector xpath=\"r:children\"/><xs:field xpath=\"@id\"/></xs:key>\n"
+    "  <xs:keyref name=\"kr\" refer=\"r:k\"><xs:selector xpath=\"r:eoe\"/><xs:field xpath=\"@ref\"/></xs:keyref>\n"
+    "  <xs:unique name=\"u\"><xs:selector xpath=\"r:simple\"/><xs:field xpath=\"@unit\"/></xs:unique>\n"
+    " </xs:element>\n"
+    " <xs:complexType name=\"childrenT\"><xs:sequence><xs:element name=\"a\" type=\"xs:string\"/>"
+    "<xs:element name=\"b\" type=\"xs:int\" minOccurs=\"0\"/><xs:choice minOccurs=\"0\" maxOccurs=\"unbounded\">"
+    "<xs:element name=\"c\" type=\"xs:token\"/><xs:element name=\"d\" type=\"xs:date\"/></xs:choice></xs:sequence>"
+    "<xs:attribute name=\"id\" type=\"xs:string\" use=\"required\"/></xs:complexType>\n"
+    " <xs:complexType name=\"mixedComplexT\" mixed=\"true\"><xs:sequence><xs:element name=\"em\" type=\"xs:string\" minOccurs=\"0\" "
+    "maxOccurs=\"unbounded\"/><xs:element name=\"strong\" type=\"xs:string\" minOccurs=\"0\"/></xs:sequence></xs:complexType>\n"
+    " <xs:complexType name=\"mixedSimpleT\" mixed=\"true\"><xs:attribute name=\"lang\" type=\"xs:language\"/></xs:complexType>\n"
+    " <xs:complexType name=\"emptyT\"><xs:attribute name=\"flag\" type=\"xs:boolean\" default=\"false\"/></xs:complexType>\n"
+    " <xs:complexType name=\"elemOnlyEmptyT\"><xs:complexContent><xs:extension base=\"r:emptyT\"><xs:sequence/>"
+    "<xs:attribute name=\"ref\" type=\"xs:string\"/></xs:extension></xs:complexContent></xs:complexType>\n"
+    " <xs:complexType name=\"simpleContentT\"><xs:simpleContent><xs:extension base=\"xs:decimal\"><xs:attribute name=\"unit\" "
+    "type=\"xs:NMTOKEN\"/></xs:extension></xs:simpleContent></xs:complexType>\n"
+    " <xs:complexType name=\"anyT\"><xs:sequence><xs:any namespace=\"##targetNamespace\" processContents=\"lax\" minOccurs=\"0\" "
+    "maxOccurs=\"unbounded\"/></xs:sequence><xs:anyAttribute namespace=\"##local\" processContents=\"skip\"/></xs:complexType>\n"
+    " <xs:complexType name=\"allT\"><xs:all><xs:element name=\"x\" type=\"xs:string\"/><xs:element name=\"y\" type=\"xs:string\" "
+    "minOccurs=\"0\"/><xs:element name=\"z\" type=\"xs:string\"/></xs:all></xs:complexType>\n"
+    " <xs:element name=\"head\" type=\"xs:string\"/>\n"
+    " <xs:element name=\"member\" substitutionGroup=\"r:head\" type=\"xs:string\"/>\n"
+    "</xs:schema>\n";
+
+static const char* kPoolDtdId = "file:///c17-pool/pool.dtd";
+static const char* kPoolDtd =
+    "<!ELEMENT proot (pa+, (pb | pc)*, pm?)>\n<!ATTLIST proot v CDATA #IMPLIED>\n"
+    "<!ELEMENT pa (#PCDATA)>\n<!ATTLIST pa k NMTOKEN 'k1'>\n<!ELEMENT pb EMPTY>\n<!ELEMENT pc ANY>\n"
+    "<!ELEMENT pm (#PCDATA | pa | pb)*>\n<!ENTITY pent 'pool-entity'>\n";
+
+// kind: 0 valid, 1 invalid
+static std::string genRichDoc(Rng& r, int kind) {
+    std::string s = "<?xml version=\"1.0\"?>\n<r:doc xmlns:r=\"urn:c17rich\">";
+    unsigned nk = 1 + r.below(3);
+    for (unsigned i = 0; i < nk; i++) {
+        s += "<r:children id=\"k" + std::to_string(kind == 1 && r.below(4) == 0 ? 0 : i) + "\"><r:a>" + word(r) + "</r:a>";
+        if (r.coin()) s += "<r:b>" + std::string(kind == 1 && r.coin() ? "x1" : "42") + "</r:b>";
+        unsigned m = r.below(4);
+        for (unsigned j = 0; j < m; j++) s += r.coin() ? "<r:c>  t  " + word(r) + " </r:c>" : std::string("<r:d>2024-02-") + (kind == 1 && r.coin() ? "30" : "29") + "</r:d>";
+        s += "</r:children>";
+    }
+    if (r.coin()) s += "<r:mixedc>text <r:em>" + word(r) + "</r:em> more <r:em>e</r:em>" + (r.coin() ? "<r:strong>s</r:strong>" : "") +
+                       (kind == 1 && r.coin() ? "<r:em>late</r:em>" : "") + " tail</r:mixedc>";
+    if (r.coin()) s += "<r:mixeds lang=\"en\">only text " + word(r) + (kind == 1 && r.coin() ? "<r:em/>" : "") + "</r:mixeds>";
+    if (r.coin()) s += "<r:eoe ref=\"" + std::string(kind == 1 && r.coin() ? "nokey" : "k0") + "\" flag=\"true\"/>";
+    unsigned ns = r.below(3);
+    for (unsigned i = 0; i < ns; i++) s += "<r:simple unit=\"u" + std::to_string(kind == 1 && r.coin() ? 0 : i) + "\">" + std::to_string(r.below(1000)) + ".5</r:simple>";
+    if (r.coin()) s += std::string("<r:empty") + (r.coin() ? " flag=\"1\"" : "") + ">" + (kind == 1 && r.coin() ? "x" : "") + "</r:empty>";
+    if (r.coin()) s += "<r:anyw loc=\"1\"><r:head>h</r:head><r:unknown/><r:empty/></r:anyw>";
+    if (r.coin()) s += std::string("<r:allg><r:z>z</r:z>") + (r.coin() ? "<r:y>y</r:y>" : "") + (kind == 1 && r.coin() ? "" : "<r:x>x</r:x>") + "</r:allg>";
+    unsigned nh = r.below(3);
+    for (unsigned i = 0; i < nh; i++) s += r.coin() ? "<r:head>" + word(r) + "</r:head>" : "<r:member>" + word(r) + "</r:member>";
+    if (r.coin()) s += "<r:ur a=\"1\">anything <r:x/></r:ur>";
+    s += "</r:doc>\n";
+    return s;
+}
+
+static std::string genPoolDtdDoc(Rng& r, int kind) {
+    std::string s = std::string("<?xml version=\"1.0\"?>\n<!DOCTYPE proot SYSTEM \"") + kPoolDtdId + "\">\n<proot v=\"" + word(r) + "\">";
+    unsigned n = 1 + r.below(3);
+    for (unsigned i = 0; i < n; i++) s += "<pa>" + word(r) + "&pent;</pa>";
+    unsigned m = r.below(4);
+    for (unsigned i = 0; i < m; i++) s += r.coin() ? std::string("<pb/>") : "<pc><pa>in</pa>text</pc>";
+    if (kind == 1) s += "<pa>late</pa>";
+    if (r.coin()) s += "<pm>mixed <pa k=\"z9\">a</pa><pb/> end</pm>";
+    s += "</proot>\n";
+    return s;
+}
+
+class PoolDtdResolver : public EntityResolver {
+public:
+    InputSource* resolveEntity(const XMLCh* const, const XMLCh* const systemId) override {
+        if (narrow(systemId).find("pool.dtd") == std::string::npos) return 0;
+        return new MemBufInputSource((const XMLByte*)kPoolDtd, strlen(kPoolDtd), systemId, false);
+    }
+};
+
+// bit14: documents of the rich schema / the pooled DTD through parsers sharing the locked pool; no new namespace URIs
+static void wRich(Digest& d, Rng& r, XMLGrammarPool* pool) {
+    d.ops++;
+    bool dtd = r.below(4) == 0;
+    int kind = r.below(3) == 0 ? 1 : 0;
+    int api = r.below(3);
+    std::string doc = dtd ? genPoolDtdDoc(r, kind) : genRichDoc(r, kind);
+    MemBufInputSource src((const XMLByte*)doc.data(), doc.size(), "c17-rich-doc", false);
+    PoolDtdResolver res;
+    d.add(std::string("rich api") + std::to_string(api) + (dtd ? " dtd" : " xsd") + std::to_string(kind));
+    wrapExceptions(d, [&]() {
+        if (api == 0) {
+            SAXParser* p = new SAXParser(0, XMLPlatformUtils::fgMemoryManager, pool);
+            H1 h;
+            p->setDocumentHandler(&h); p->setErrorHandler(&h); p->setEntityResolver(&res);
+            p->setValidationScheme(SAXParser::Val_Always); p->setDoNamespaces(true); p->setDoSchema(!dtd);
+            p->setIdentityConstraintChecking(true); p->setValidationSchemaFullChecking(r.coin());
+            p->useCachedGrammarInParse(true);
+            try { p->parse(src); } catch (const SAXParseException& e) { h.s.err("X", e); }
+            d.add(h.s.out); d.add(std::to_string((int)p->getErrorCount()));
+            delete p;
+        } else if (api == 1) {
+            SAX2XMLReader* p = XMLReaderFactory::createXMLReader(XMLPlatformUtils::fgMemoryManager, pool);
+            H2 h;
+            p->setContentHandler(&h); p->setErrorHandler(&h); p->setEntityResolver(&res);
+            if (r.coin()) p->setProperty(XMLUni::fgXercesScannerName, (void*)(dtd ? XMLUni::fgDGXMLScanner : XMLUni::fgSGXMLScanner));
+            p->setFeature(XMLUni::fgSAX2CoreValidation, true);
+            p->setFeature(XMLUni::fgXercesDynamic, false);
+            p->setFeature(XMLUni::fgXercesSchema, !dtd);
+            p->setFeature(XMLUni::fgXercesUseCachedGrammarInParse, true);
+            try { p->parse(src); } catch (const SAXParseException& e) { h.s.err("X", e); }
+            d.add(h.s.out); d.add(std::to_string((int)p->getErrorCount()));
+            delete p;
+        } else {
+            XercesDOMParser* p = new XercesDOMParser(0, XMLPlatformUtils::fgMemoryManager, pool);
+            H1 h;
+            p->setErrorHandler(&h); p->setEntityResolver(&res);
+            p->setValidationScheme(XercesDOMParser::Val_Always); p->setDoNamespaces(true); p->setDoSchema(!dtd);
+            p->setCreateSchemaInfo(r.coin());
+            p->useCachedGrammarInParse(true);
+            try { p->parse(src); } catch (const SAXParseException& e) { h.s.err("X", e); }
+            d.add(h.s.out);
+            std::string dump; dumpDom(p->getDocument(), dump); d.add(dump);
+            delete p;
+        }
+    });
+}
+
+// bit15: everything a private parser or another thread may legally direct at a locked shared pool must leave it as it is
+static void wPoke(Digest& d, Rng& r, const Shared& sh) {
+    d.ops++;
+    XMLGrammarPool* pool = sh.pool;
+    wrapExceptions(d, [&]() {
+        for (int it = 0; it < 12; it++) {
+            switch (r.below(8)) {
+            case 0: { XercesDOMParser* p = new XercesDOMParser(0, XMLPlatformUtils::fgMemoryManager, pool); p->resetCachedGrammarPool(); delete p; d.add("reset-dom"); break; }
+            case 1: { SAX2XMLReader* p = XMLReaderFactory::createXMLReader(XMLPlatformUtils::fgMemoryManager, pool); p->resetCachedGrammarPool(); delete p; d.add("reset-sax2"); break; }
+            case 2: { SAXParser* p = new SAXParser(0, XMLPlatformUtils::fgMemoryManager, pool); p->resetCachedGrammarPool(); delete p; d.add("reset-sax"); break; }
+            case 3: d.add(pool->clear() ? "clear:1" : "clear:0"); break;
+            case 4: { DTDGrammar* g = new DTDGrammar(XMLPlatformUtils::fgMemoryManager);
+                      XMLDTDDescription* ds = (XMLDTDDescription*)g->getGrammarDescription();
+                      ds->setSystemId(X("file:///c17-poke/" + std::to_string(r.below(1000000)) + ".dtd").c_str());
+                      bool took = pool->cacheGrammar(g);
+                      d.add(took ? "cache:1" : "cache:0");
+                      if (!took) delete g;
+                      break; }
+            case 5: { Grammar* g = pool->orphanGrammar(r.coin() ? X("urn:c17rich").c_str() : X("urn:nothing").c_str()); d.add(g ? "orphan:1" : "orphan:0"); break; }
+            case 6: { XMLSchemaDescription* sd = pool->createSchemaDescription(X(r.coin() ? "urn:c17rich" : "urn:c17").c_str());
+                      Grammar* g = pool->retrieveGrammar(sd);
+                      d.add(g ? "retrieve:" + narrow(g->getTargetNamespace()) : "retrieve:0");
+                      delete sd;
+                      XMLDTDDescription* dd = pool->createDTDDescription(X(kPoolDtdId).c_str());
+                      d.add(pool->retrieveGrammar(dd) ? "retrieve-dtd:1" : "retrieve-dtd:0");
+                      delete dd;
+                      break; }
+            default: { bool changed = true; XSModel* xm = pool->getXSModel(changed);
+                       d.add(std::string("xsmodel:") + (xm == 0 ? "NULL" : xm == sh.xsModel ? "same" : "DIFFERENT") + (changed ? ":changed" : ""));
+                       if (xm && xm == sh.xsModel) d.add(std::to_string((int)xm->getNamespaces()->size()));
+                       break; }
+            }
+        }
+    });
+}
+
+// bit17: the complements that Initialize does not pre-build are created on first use inside RangeTokenMap::getRange; whatever
+// the order in which threads ask, \p{X} and \P{X} must keep meaning the same
+static void wLazyCompl(int idx, Digest& d, Rng& r, const Shared& sh) {
+    static const char16_t* probe = u"aZ0 _-$\u00E9\u03B1\u0416\u0660\u20AC\u2028\uFFFF\u0378";
+    d.ops++;
+    std::vector<std::string> keys = sh.lazyCompl;
+    if (keys.empty()) { d.add("no-lazy-complements"); keys = {"L", "Nd"}; }
+    // a different order per thread
+    for (size_t i = keys.size(); i > 1; i--) std::swap(keys[i - 1], keys[(idx * 7 + r.below((unsigned)i)) % i]);
+    std::string all;
+    for (int pass = 0; pass < 3; pass++) {
+        for (const std::string& k : keys) {
+            static const char* forms[] = {"\\P{%s}", "\\p{%s}", "[\\P{%s}]", "[^\\P{%s}]", "[\\P{%s}-[b-y]]", "\\P{%s}+"};
+            for (unsigned f = 0; f < sizeof forms / sizeof forms[0]; f++) {
+                if (pass == 0 && f != 0 && f != 2) continue;          // first pass: only the requests that create
+                char pat[128]; snprintf(pat, sizeof pat, forms[f], k.c_str());
+                std::string res = std::string(pat) + "=";
+                try {
+                    RegularExpression re(X(pat).c_str());
+                    for (const char16_t* c = probe; *c; c++) { XMLCh one[2] = {(XMLCh)*c, 0}; res += re.matches(one) ? '1' : '0'; }
+                } catch (const XMLException& e) { res += excName("XMLException", e.getMessage()); }
+                all += res + ";";
+            }
+        }
+    }
+    // order independence: the digest is taken over the sorted list of (pattern, answers)
+    std::vector<std::string> items; size_t pos = 0, q;
+    while ((q = all.find(';', pos)) != std::string::npos) { items.push_back(all.substr(pos, q - pos)); pos = q + 1; }
+    std::sort(items.begin(), items.end());
+    items.erase(std::unique(items.begin(), items.end()), items.end());
+    for (auto& i : items) d.add(i);
+}
+
+// both slots of every keyword: hash of the positive token's ranges; complement token (if any) == complement of the positive
+static std::string rangeMapState(bool checkCompl, std::string* bad) {
+    std::string out;
+    RangeTokenMap* tm = RangeTokenMap::instance();
+    RefHashTableOf<RangeTokenElemMap>* reg = tm->getTokenRegistry();
+    RefHashTableOfEnumerator<RangeTokenElemMap> en(reg, false, XMLPlatformUtils::fgMemoryManager);
+    std::vector<std::string> rows;
+    while (en.hasMoreElements()) {
+        const XMLCh* key = (const XMLCh*)en.nextElementKey();
+        RangeTokenElemMap* em = reg->get(key);
+        RangeToken* p = em->getRangeToken(false);
+        RangeToken* n = em->getRangeToken(true);
+        uint64_t h = 1469598103934665603ull;
+        if (p) { h ^= (uint64_t)p->getTokenType(); h *= 1099511628211ull; for (unsigned i = 0; i < p->fElemCount; i++) { h ^= (uint64_t)(uint32_t)p->fRanges[i]; h *= 1099511628211ull; } }
+        char buf[32]; snprintf(buf, sizeof buf, "%016llx", (unsigned long long)h);
+        rows.push_back(narrow(key) + "=" + (p ? buf : "none"));
+        if (checkCompl && p && n) {
+            // complement check on code points around every range boundary of both tokens (+ fixed samples)
+            std::vector<XMLInt32> pts = {0, 1, 0x41, 0x7F, 0x80, 0xFF, 0x100, 0x3B1, 0xFFFF, 0x10000, 0x10FFFF};
+            for (RangeToken* t : {p, n}) for (unsigned i = 0; i < t->fElemCount; i++) for (int dlt = -1; dlt <= 1; dlt++) {
+                XMLInt32 c = t->fRanges[i] + dlt; if (c >= 0 && c <= 0x10FFFF) pts.push_back(c); }
+            for (XMLInt32 c : pts) {
+                bool inP = false, inN = false;
+                for (unsigned i = 0; i + 1 < p->fElemCount; i += 2) if (p->fRanges[i] <= c && c <= p->fRanges[i + 1]) inP = true;
+                for (unsigned i = 0; i + 1 < n->fElemCount; i += 2) if (n->fRanges[i] <= c && c <= n->fRanges[i + 1]) inN = true;
+                if (p->getTokenType() == Token::T_NRANGE) inP = !inP;
+                if (n->getTokenType() == Token::T_NRANGE) inN = !inN;
+                if (inP == inN) { if (bad && bad->size() < 200) *bad += narrow(key) + "@" + std::to_string(c) + " "; break; }
+            }
+        }
+    }
+    std::sort(rows.begin(), rows.end());
+    uint64_t hh = 1469598103934665603ull;
+    for (auto& rw : rows) for (unsigned char c : rw) { hh ^= c; hh *= 1099511628211ull; }
+    char buf[32]; snprintf(buf, sizeof buf, "%016llx", (unsigned long long)hh);
+    return buf;
+}
+
 // bit9: DTDs and a locked pool
 class DtdResolver : public EntityResolver {
 public:
@@ -1015,7 +1295,8 @@ static void wRegexAll(int idx, int iter, const Shared& sh, Digest& d, Rng& r) {
 static void workload(int idx, uint64_t seed, const Shared& sh, Digest& d) {
     Rng r(seed * 1000003ull + (uint64_t)idx * 7919ull + 17);
     std::vector<int> enabled;
-    for (int b = 0; b < 12; b++) if (b != 6 && (sh.mask & (1u << b))) enabled.push_back(b);
+    static const int kWork[] = {0, 1, 2, 3, 4, 5, 7, 8, 9, 10, 11, 14, 15, 17};
+    for (int b : kWork) if (sh.mask & (1u << b)) enabled.push_back(b);
     if (enabled.empty()) return;
     // the first operation of thread i is workload (i mod #enabled): all facilities see first-use contention
     for (int it = 0; it < sh.iters; it++) {
@@ -1032,7 +1313,10 @@ static void workload(int idx, uint64_t seed, const Shared& sh, Digest& d) {
         case 8: wLcp(d, r); break;
         case 9: wDtdPool(d, r, sh.pool, tag); break;
         case 10: wErrText(d, r, tag); break;
-        default: wRegexAll(idx, it, sh, d, r); break;
+        case 11: wRegexAll(idx, it, sh, d, r); break;
+        case 14: wRich(d, r, sh.pool); break;
+        case 15: wPoke(d, r, sh); break;
+        default: wLazyCompl(idx, d, r, sh); break;
         }
     }
 }
@@ -1072,22 +1356,52 @@ int main(int argc, char** argv) {
     PerturbMutexMgr* pm = 0;
     if (gPerturbLevel > 0 && mode == "conc") { pm = new PerturbMutexMgr(origMgr); XMLPlatformUtils::fgMutexMgr = pm; }
 
-    if (sh.mask & 0x282u) {
-        // the shared pool: one schema grammar is cached, then the pool is locked; from then on it is read-only and
-        // hands out a synchronised URI string pool
-        sh.pool = new XMLGrammarPoolImpl(XMLPlatformUtils::fgMemoryManager);
-        SAX2XMLReader* p = XMLReaderFactory::createXMLReader(XMLPlatformUtils::fgMemoryManager, sh.pool);
-        MemBufInputSource xsd((const XMLByte*)kXSD, strlen(kXSD), "c17-xsd", false);
-        p->setFeature(XMLUni::fgXercesSchema, true);
-        // bit6 clear: preload with validation + full schema checking (SchemaValidator::preContentValidation then builds
-        // every content model before the pool is locked); bit6 set: plain preload, content models are built lazily
-        // by whichever sharing parser first needs them
-        p->setFeature(XMLUni::fgSAX2CoreValidation, (sh.mask & 64u) == 0);
-        p->setFeature(XMLUni::fgXercesSchemaFullChecking, (sh.mask & 64u) == 0);
-        p->loadGrammar(xsd, Grammar::SchemaGrammarType, true);
-        delete p;
-        sh.pool->lockPool();
+    CountingMemMgr* poolMem = 0;
+    const bool strictMem = (sh.mask & 0x82u) == 0;       // bits 1 and 7 add namespace URIs: the synchronised URI pool may grow
+    if (sh.mask & 0xC282u) {
+        // the shared pool: schema grammars (plain + rich) and a DTD grammar are cached, then the pool is locked; from then on
+        // it is read-only and hands out a synchronised URI string pool.  It has its own (counting) memory manager.
+        poolMem = new CountingMemMgr();
+        XMLGrammarPool* pool = new XMLGrammarPoolImpl(poolMem);
+        {
+            SAX2XMLReader* p = XMLReaderFactory::createXMLReader(XMLPlatformUtils::fgMemoryManager, pool);
+            MemBufInputSource xsd((const XMLByte*)kXSD, strlen(kXSD), "c17-xsd", false);
+            MemBufInputSource xsd2((const XMLByte*)kXSDRich, strlen(kXSDRich), "c17-xsd-rich", false);
+            MemBufInputSource dtd((const XMLByte*)kPoolDtd, strlen(kPoolDtd), kPoolDtdId, false);
+            p->setFeature(XMLUni::fgXercesSchema, true);
+            // bit6 clear: preload with validation + full schema checking (SchemaValidator::preContentValidation then builds
+            // every content model before the pool is locked); bit6 set: plain preload, content models are built lazily
+            // by whichever sharing parser first needs them
+            p->setFeature(XMLUni::fgSAX2CoreValidation, (sh.mask & 64u) == 0);
+            p->setFeature(XMLUni::fgXercesSchemaFullChecking, (sh.mask & 64u) == 0);
+            p->loadGrammar(xsd, Grammar::SchemaGrammarType, true);
+            p->loadGrammar(xsd2, Grammar::SchemaGrammarType, true);
+            p->loadGrammar(dtd, Grammar::DTDGrammarType, true);
+            delete p;
+        }
+        if (sh.mask & 0x2000u) {
+            // bit13: hand the threads a pool that was obtained by de-serialisation
+            if (sh.mask & 0x10000u) pool->lockPool();                 // bit16: serialise a LOCKED pool
+            BinMemOutputStream out(64 * 1024);
+            pool->serializeGrammars(&out);
+            CountingMemMgr* mem2 = new CountingMemMgr();
+            XMLGrammarPool* pool2 = new XMLGrammarPoolImpl(mem2);
+            BinMemInputStream in(out.getRawBuffer(), out.getSize(), BinMemInputStream::BufOpt_Reference);
+            pool2->deserializeGrammars(&in);
+            if (sh.mask & 0x10000u) pool->unlockPool();
+            delete pool;
+            // (poolMem of the first pool is intentionally kept alive until exit: nothing refers to it any more)
+            pool = pool2; poolMem = mem2;
+        }
+        pool->lockPool();
+        sh.pool = pool;
+        bool changed = false;
+        sh.xsModel = pool->getXSModel(changed);
     }
+    if (sh.mask & 0x20000u) {
+        for (const TokInfo& t : auditTokens()) if (t.compl_ == 1 && !t.present) sh.lazyCompl.push_back(t.key);
+    }
+    std::string rmBefore = (sh.mask & 0x20800u) ? rangeMapState(false, 0) : "";
 
     if (sh.mask & 0x800u) {
         for (const TokInfo& t : auditTokens()) {
@@ -1110,6 +1424,7 @@ int main(int argc, char** argv) {
         return std::to_string(keys.size()) + " " + (all.empty() ? "-" : all);
     };
     if (sh.pool) printf("POOL before %s\n", poolState().c_str());
+    long memBefore = poolMem ? poolMem->allocs.load() - poolMem->frees.load() : 0, memAllocsBefore = poolMem ? poolMem->allocs.load() : 0;
 
     std::vector<Digest> res(nthreads);
     if (mode == "seq") {
@@ -1130,6 +1445,19 @@ int main(int argc, char** argv) {
     for (int i = 0; i < nthreads; i++) printf("T %d %016llx %lu\n", i, (unsigned long long)res[i].h, res[i].ops);
 
     if (sh.pool) printf("POOL after %s\n", poolState().c_str());
+    if (poolMem) printf("POOLMEM strict=%d outstanding before %ld after %ld allocations %ld\n", (int)strictMem, memBefore,
+                        poolMem->allocs.load() - poolMem->frees.load(), poolMem->allocs.load() - memAllocsBefore);
+    if (sh.pool) {
+        bool changed = true;
+        XSModel* xm = sh.pool->getXSModel(changed);
+        printf("XSMODEL nonnull=%d same=%d changed=%d\n", (int)(xm != 0), (int)(xm == sh.xsModel), (int)changed);
+    }
+    if (sh.mask & 0x20800u) {
+        std::string bad;
+        std::string rmAfter = rangeMapState(true, &bad);
+        printf("RANGEMAP positive-slots %s complement-slots %s %s\n", rmAfter == rmBefore ? "unchanged" : "CHANGED",
+               bad.empty() ? "ok" : "BAD", bad.c_str());
+    }
     if (sh.pool) { sh.pool->unlockPool(); delete sh.pool; }
     if (pm) { XMLPlatformUtils::fgMutexMgr = origMgr; delete pm; }
     XMLPlatformUtils::Terminate();
